@@ -128,13 +128,32 @@ class Terminal(object):
         self.eof_delivered = False
         self.reads_after_eof = 0
         self.aborted = False
+        self.abort_reason = None
+        self.written = 0
         self.on_read = None  # optional callback(prompt) used by informational fault kinds
 
+    # a complete v4 all-metrics session prints ~10 kB; a report for a 10 kB vector ~40 kB. A program that
+    # has written 8 MB is printing in a loop that never reads: same verdict as reading without end
+    MAX_WRITTEN = 8 * 1024 * 1024
+
+    def _count(self, s):
+        self.written += len(s)
+        if self.written > self.MAX_WRITTEN:
+            self.aborted = True
+            self.abort_reason = "still writing after %d characters of output and %d reads" % (self.written, self.reads)
+            self.pending = self.pending[-50:]
+            self.err = self.err[-50:]
+            raise SimAbort(self.abort_reason)
+
     def write_out(self, s):
-        self.pending.append(to_text(s))
+        s = to_text(s)
+        self.pending.append(s)
+        self._count(s)
 
     def write_err(self, s):
-        self.err.append(to_text(s))
+        s = to_text(s)
+        self.err.append(s)
+        self._count(s)
 
     def flush_pending(self):
         if self.pending:
@@ -148,6 +167,7 @@ class Terminal(object):
         self.reads += 1
         if self.reads > self.max_reads:
             self.aborted = True
+            self.abort_reason = "still reading after %d reads" % (self.reads - 1)
             raise SimAbort("read cap of %d exceeded" % self.max_reads)
         out = self.flush_pending()
         if self.eof:
@@ -363,6 +383,8 @@ def run_builder(version, all_metrics, no_colors, agent, max_reads=500, on_read=N
     res["stderr"] = term.stderr_text()
     res["reads"] = term.reads
     res["reads_after_eof"] = term.reads_after_eof
+    res["aborted"] = bool(res["aborted"] or term.aborted)
+    res["abort_reason"] = term.abort_reason
     return res
 
 
@@ -429,6 +451,8 @@ def run_cli(argv, agent, max_reads=500, on_read=None):
     res["stderr"] = term.stderr_text()
     res["reads"] = term.reads
     res["reads_after_eof"] = term.reads_after_eof
+    res["aborted"] = bool(res["aborted"] or term.aborted)
+    res["abort_reason"] = term.abort_reason
     return res
 
 
